@@ -151,6 +151,14 @@ def curated_cases():
                  'target': {'secret': {'owner': 'zz'}}, 'target.secret.owner': 'u1'},
                 {'target': {'secret': {'owner': 'u1'}}, 'target.secret.owner': 'zz', 'network:tenant_id': 'u1'}):
         out.append((dict(rules2), fixed_token('project'), False, tgt))
+    # every policy of a listing is evaluated with the credentials derived from the token -- not with what an earlier
+    # policy's evaluation left of them: role names keep their letter case for checks that read them as attributes
+    rules3 = {'a:first': 'role:member', 'b:case': 'roles:Member', 'c:lower': 'roles:member', 'd:not': 'not roles:Member',
+              'e:again': 'role:MEMBER and roles:Member', 'f:sys': 'system_scope:all or roles:Reader'}
+    for scope in ('project', 'system'):
+        for is_admin in (False, True):
+            out.append((dict(rules3), fixed_token(scope, roles=('Member', 'Reader')), is_admin, None))
+            out.append((dict(rules3), fixed_token(scope, roles=('member', 'ADMIN')), is_admin, {}))
     return out
 
 
